@@ -332,14 +332,14 @@ func (p *Parser) parseBuffer(buf []byte, last bool) (err error) {
 			p.mode = ccommentMap
 			continue
 		case openObject:
-			if 256 < len(p.mode) {
-				switch p.mode[256] {
-				case 'n':
-					if err = p.add(p.num.AsNum(), off); err != nil {
-						return
-					}
-				case 't':
-					p.addToken(off)
+			if 256 < len(p.mode) && p.mode[256] == 't' {
+				p.addToken(off)
+				off-- // the token is complete, handle the bracket again in the new mode
+				break
+			}
+			if 256 < len(p.mode) && p.mode[256] == 'n' {
+				if err = p.add(p.num.AsNum(), off); err != nil {
+					return
 				}
 			}
 			p.starts = append(p.starts, -1)
@@ -450,14 +450,14 @@ func (p *Parser) parseBuffer(buf []byte, last bool) (err error) {
 			p.ri = 0
 			continue
 		case openArray:
-			if 256 < len(p.mode) {
-				switch p.mode[256] {
-				case 'n':
-					if err = p.add(p.num.AsNum(), off); err != nil {
-						return
-					}
-				case 't':
-					p.addToken(off)
+			if 256 < len(p.mode) && p.mode[256] == 't' {
+				p.addToken(off)
+				off-- // the token is complete, handle the bracket again in the new mode
+				break
+			}
+			if 256 < len(p.mode) && p.mode[256] == 'n' {
+				if err = p.add(p.num.AsNum(), off); err != nil {
+					return
 				}
 			}
 			p.starts = append(p.starts, len(p.stack))
